@@ -178,24 +178,6 @@ theorem wait_seg {s : Sys St Op} {t : Nat} {a : Act} {th0 : Th Op} {o : SegOut S
     · simp [resume, h0]
     · cases hc : th0.cancelled <;> simp [resume, h0, waitLoop]
 
-/-- identify the segment of a step from the pre-state -/
-theorem seg_of_step {s s' : Sys St Op} {a : Act} {obs : String} {t : Nat} {th : Th Op} {op : Op}
-    (hwf : s.WF) (hen : a ∈ enabled s true) (hs : step subject s a = some (s', obs))
-    (ha : a = .start t ∨ a = .resume t) (hth : s.ths[t]? = some th) (hop : th.ops[th.pc]? = some op) :
-    ∃ th0 o, IsSeg subject s t a th0 op o ∧ SegRel s s' t o th0 ∧ th0.pc = th.pc ∧
-      (a = .resume t → th0 = th) ∧ (a = .start t → th0.cancelled = false) := by
-  obtain ⟨th0, op', o, hseg, r⟩ := step_seg hwf hen hs ha
-  obtain ⟨th1, hth1, hops, hpc, _, _, hop', _, hact⟩ := hseg.basic
-  rw [hth] at hth1; cases hth1
-  rw [hops, hpc, hop] at hop'; cases hop'
-  refine ⟨th0, o, hseg, r, hpc, ?_, ?_⟩
-  · intro hr; rcases hact with h1 | ⟨_, h1⟩
-    · rw [hr] at h1; cases h1
-    · exact h1
-  · intro hst; subst hst
-    cases hseg with
-    | start _ _ _ => rfl
-
 /-- C14 `wait_returns_only_if`, system level -/
 theorem wait_returns_only_if {programs : List (List Op)} {s s' : Sys St Op} {a : Act} {obs : String} {t : Nat}
     {th th' : Th Op} (hr : Reach subject (init programs) s) (hen : a ∈ enabled s true)
